@@ -635,8 +635,16 @@ class CQuoter:
                 problems.append(f"U+{c:04X} is not a surrogate but nothing is written for it")
                 first = first or taken[0][1]
         ctx.instance(rule)
-        ctx.ob(rule, q, "surrogate block U+D800..U+DFFF", not problems, "; ".join(problems), where(fi, first or fi.node),
-               sample="dropped exactly for U+D800..U+DFFF")
+        written = [p_ for p_ in problems if "is a surrogate" in p_]
+        dropped = [p_ for p_ in problems if "is not a surrogate" in p_]
+        ctx.ob(rule, q, "surrogate block U+D800..U+DFFF", not written, "; ".join(written), where(fi, first or fi.node),
+               sample="every surrogate is written as nothing")
+        rule2 = "EM-UTF8-DROP"
+        ctx.rule(rule2, floor=1, what="only surrogate code points are written as nothing")
+        ctx.instance(rule2)
+        ctx.ob(rule2, q, "code points next to the surrogate block", not dropped, "; ".join(dropped) +
+               ": ordinary text (e.g. Hangul syllables just below U+D800) would vanish from the URL", where(fi, first or fi.node),
+               sample="U+D7FF and U+E000 are written")
 
     def _advance(self):
         """Scanner position accounting of the compiled quoter: +1 per unit, +3 when a valid escape was consumed."""
